@@ -131,7 +131,14 @@ def span(ctx):
                "from the latest commit)", "" if ok else "m_data is read before/without the writer lock: two writers can "
                "copy the same version and one update is lost", fn=f.label, inst=f.qname)
         # the private copy: new T(**data) where data is the read handle
-        news = [st for st in f.stmts.values() if st["k"] == "CXXNewExpr"]
+        def _news(g):
+            # `new T(x)` and `std::make_unique<T>(x)` (given the shape of a new-expression: init = the constructor argument)
+            out_ = [st for st in g.stmts.values() if st["k"] == "CXXNewExpr"]
+            for st in g.stmts.values():
+                if st["k"] == "CallExpr" and callee_fq(st) == "std::make_unique" and len(st["args"]) == 1:
+                    out_.append(dict(st, init=st["args"][0], made_unique=True))
+            return out_
+        news = _news(f)
         ok = False
         hv = None
         for r in reads:
@@ -154,11 +161,13 @@ def span(ctx):
                         from ..guards import locks_of
                         f, hv = g, "p:" + g.params[idx[0]]["name"]
                         la = locks_of(eng, fb, g)
-                        news = [x for x in f.stmts.values() if x["k"] == "CXXNewExpr"]
+                        news = _news(f)
                         break
         for n_ in news:
             init = unwrap(f, f.s(n_.get("init")))
-            if init is not None and init["k"] in CTORS and len(init["args"]) == 1:
+            if n_.get("made_unique"):
+                src = path(f, init) if init is not None else None
+            elif init is not None and init["k"] in CTORS and len(init["args"]) == 1:
                 src = path(f, f.s(init["args"][0]))
             else:
                 src = path(f, init) if init is not None else None      # scalar payloads: new int(**data)
@@ -299,6 +308,20 @@ def commit(ctx):
                st["callee"]["name"] == "unlock" and path(f, f.s(st["obj"])) == "this.m_lock"}
         dels = {tuple(f.pos_of(st)): st for st in f.stmts.values() if st["k"] == "CXXDeleteExpr" and
                 path(f, f.s(st["arg"])) == pn}
+        # the abandoned copy may also be KEPT for a later writer instead of freed: handed to an owning member of the
+        # cow_guarded (a spare buffer) - owned by someone, installed nowhere
+        keeps = {tuple(f.pos_of(st)): st for st in f.stmts.values() if st["k"] == "CXXMemberCallExpr" and f.pos_of(st) and
+                 st["callee"]["name"] == "reset" and len(st["args"]) == 1 and path(f, f.s(st["args"][0])) == pn and
+                 re.match(r"^this\.m_guarded(\.|->)(?!m_data\b)\w+$", path(f, f.s(st["obj"])) or "") and
+                 (f.s(st["obj"]) or {}).get("t", "").replace("const ", "").startswith("std::unique_ptr<")}
+        for kp, kst in keeps.items():
+            # the spare slot belongs to the writer: it is filled only while this deleter still owns the writer lock (on the
+            # cancelled path that is the state cancel() left the lock in)
+            okk = la_canc.holds(kp, "this.m_guarded.m_writeMutex", "X") if kp[0] in la_canc.block_in else \
+                la.holds(kp, "this.m_guarded.m_writeMutex", "X")
+            ctx.ob(rid, okk, f.loc(kst), "the abandoned copy is put aside for the next writer while the writer lock is still owned",
+                   "" if okk else "%s is written after cancel() has released m_writeMutex: the next writer, who already holds the "
+                   "mutex, takes or replaces the same slot at the same time" % path(f, f.s(kst["obj"])), fn=f.label, inst=f.qname)
         try:
             ps = paths(f)
         except TooManyPaths:
@@ -321,7 +344,7 @@ def commit(ctx):
                     seq.append("modify")
                 elif pos in unl:
                     seq.append("unlock")
-                elif pos in dels:
+                elif pos in dels or pos in keeps:
                     seq.append("delete")
             key = (cancelled, nonnull, tuple(seq))
             if key in seen:
@@ -417,6 +440,13 @@ def commit(ctx):
         calls = [st for st in f.stmts.values() if st["k"] == "CXXMemberCallExpr"]
         c = [s for s in calls if s["callee"]["name"] == "cancel"]
         r = [s for s in calls if s["callee"]["name"] == "reset"]
+        if not r:
+            # `get_deleter()(release())`: the deleter is run by hand on the pointer taken out of the handle - what
+            # reset() does, also for a handle that is already empty
+            r = [s for s in f.stmts.values() if s["k"] == "CXXOperatorCallExpr" and s.get("op") == "()" and len(s["args"]) == 2 and
+                 (path(f, f.s(s["args"][0])) or "").endswith(".<deleter>") and
+                 (unwrap(f, f.s(s["args"][1])) or {}).get("k") == "CXXMemberCallExpr" and
+                 (unwrap(f, f.s(s["args"][1])).get("callee") or {}).get("name") == "release"]
         ok = len(c) == 1 and len(r) == 1 and f.dominates(f.pos_of(c[0]), f.pos_of(r[0])) and \
             (path(f, f.s(c[0]["obj"])) or "").endswith(".<deleter>")
         ctx.ob(rid, ok, f.where, "handle::cancel() cancels the deleter first and then resets (the deleter then deletes, "
